@@ -252,7 +252,9 @@ class Generator(AbstractODSGenerator):
             transaction_day=transaction.timestamp.day,
             transaction_client=_(self.TRANSFER),
             sales_crypto_amount=transaction_fee_in_crypto if transaction_fee_in_crypto > ZERO else None,
-            sales_amount_in_yen=transaction_fee_in_yen if transaction_fee_in_yen > ZERO else None,
+            # The row is listed whenever a fee was paid in crypto: its yen value may be too small to compare greater than zero (e.g. a
+            # fee of 0.00000000007 of a coin worth 0.00002), but it is a number all the same
+            sales_amount_in_yen=transaction_fee_in_yen if transaction_fee_in_crypto > ZERO else None,
             fee_in_yen=ZERO,
             gift=ZERO,
         )
